@@ -12,10 +12,10 @@ PYTHONPATH=$W /venv/bin/python $S/demo.py >/tmp/demo_post.$$ 2>&1; post=$?
 git checkout -q -- . && git clean -fdq
 echo "$ID$V: demo pristine exit=$pre, with change exit=$post; tests: $t"
 if [ $pre = 0 ] && [ $post != 0 ] && echo "$t" | grep -q "no longer passing: 0"; then
-  mkdir -p $D && cp $S/patch.diff $S/demo.py $D/ && /venv/bin/python - "$S/meta.json" "$D/meta.json" "$t" "$(tail -3 /tmp/demo_post.$$)" <<'PY'
+  mkdir -p $D && cp $S/patch.diff $S/demo.py $D/ && /venv/bin/python - "$S/meta.json" "$D/meta.json" "$t" "$(tail -3 /tmp/demo_post.$$)" "${G#g}" <<'PY'
 import json, sys
 m = json.load(open(sys.argv[1]))
-m["generation"] = 7
+m["generation"] = int(sys.argv[5])
 m["confirmed"] = {"tests": sys.argv[3], "demo_exit_pristine": 0, "demo_exit_with_change": "non-zero", "demo_output_with_change_tail": sys.argv[4],
                   "how": "tools/confirm_seed7.sh: git apply in a scratch worktree, pinned test suite compared with BASELINE stable_pass, demo.py run with and without the change"}
 json.dump(m, open(sys.argv[2], "w"), indent=1)
